@@ -20,6 +20,7 @@ Definition ans_eqb (vcl : Z -> Z) (m i : tans) : bool :=
   | AValue v, AValue v' => vcl v =? v'
   | AList l, AList l' => zl_eqb (map vcl l) l'
   | AMatrix l, AMatrix l' => list_eqb zl_eqb (map (map vcl) l) l'
+  | ACell c, ACell c' => cell_eqb c c'
   | _, _ => false end.
 Definition maps_ok (t : tstate) (tm cm : list Z) (rmaps : list (nat * list Z)) : bool :=
   zl_eqb (cmap (rows t)) tm && zl_eqb (cmap (cols t)) cm &&
